@@ -128,6 +128,24 @@ def run(chk):
         eq('R16.3', f'{lab}: gravity at the top slice == surface gravity', gs[-1], A['_gravity_outer'], where)
         # slice masses are density * volume with volume = 4pi/3 (r_k^3 - r_{k-1}^3) and r_k > r_{k-1}: non-negative
         eq('R16.3', f'{lab}: slice k volume == 4 pi/3 (r_k^3 - r_(k-1)^3)', vs[1], X.const(F(4, 3)) * pi * (radii[1] ** 3 - radii[0] ** 3), where)
+    # the way a LayeredWorld uses it: slice arrays already filled from the layers (their sums need not match a configured world mass), geometry set with build_slices=False --
+    # the bulk values must still be those of the mass and radius handed in
+    for nsl in (3,):
+        pre = {nm: Vec([X.atom(f'layer_{nm}{k}', 'pos') for k in range(nsl)]) for nm in ('radii', 'volume_slices', 'sa_slices', 'depths', 'mass_slices', 'mass_below_slices', 'density_slices', 'gravity_slices')}
+        o = Obj(cls=('class', mp, cls), name='world-level object', attrs={'_num_slices': nsl, 'num_slices': nsl, '_moi': None, 'moi': None})
+        for nm, v_ in pre.items():
+            o.attrs['_' + nm] = v_
+        try:
+            it.call(mp, ms['set_geometry'], [R, M], {'thickness': R, 'mass_below': X.ZERO, 'build_slices': False}, self_obj=o)      # BaseWorld.set_geometry hands thickness=radius on
+        except AnalysisError as ex:
+            raise AnalysisError(f'set_geometry(build_slices=False) on an object with pre-filled slices: {ex}')
+        A = o.attrs
+        eq('R16.3', 'build_slices=False on pre-filled slice arrays (LayeredWorld): surface gravity == G M / R^2 with the mass handed in', A['_gravity_outer'], G * M / R ** 2, where,
+           key='R16.3|prefilled|gravity')
+        eq('R16.3', 'build_slices=False on pre-filled slice arrays (LayeredWorld): volume == 4 pi R^3 / 3, bulk density == M / volume', A['_density_bulk'], M / (X.const(F(4, 3)) * pi * R ** 3), where,
+           key='R16.3|prefilled|density')
+        untouched = all(A['_' + nm] is v_ for nm, v_ in pre.items())
+        chk.ob('R16.3', 'build_slices=False leaves the pre-filled slice arrays alone', untouched, 'a slice array was rebuilt or replaced', where, key='R16.3|prefilled|untouched', method='interpretation, object identity')
     chk.note_analysed('functions', 'PhysicalObjSpherical.set_geometry')
 
     # find_geometry_from_config: contiguity in every derived path
